@@ -192,7 +192,7 @@ Section Calc.
                             | RInline on sub => rec c sub nid v (prefix ++ "On" ++ camel on)%string
                             | RSpread n =>
                                 Some (push_field c nid
-                                        (render_field o None (snake n) n [QRequired] true None (recursive n)))
+                                        (render_field o None (kw (snake n)) n [QRequired] true None (recursive n)))
                             | _ => Some c
                             end) mine c2
                       end
